@@ -379,3 +379,79 @@ def stage_examples(pid, seed, tier, workdir):
     res["samples"] = [{"case": k[0], "check": k[1], "result": v[0], "details": v[1]} for k, v in list(checks.items())[:4]]
     res["notes"] = {"cases_crashed": skip, "checks": len(checks)}
     return res
+
+
+# ---------------------------------------------------------------------------
+# C18: concurrent read-only use, bit-identical to sequential, under ThreadSanitizer
+# ---------------------------------------------------------------------------
+def stage_threads(pid, seed, tier, workdir):
+    res = {"diffs": [], "infra": [], "evaluations": 0, "samples": [], "nontrivial": [], "notes": {}}
+    src = os.path.join(VERIF, "cpp", "threads_check.cpp")
+    builds = [("plain", "-O2 -pthread"), ("tsan", "-O1 -g -pthread -fsanitize=thread")]
+    seeds = [seed % 100000, seed % 100000 + 7] if tier == "quick" else [seed % 100000 + i for i in range(6)]
+    for name, flags in builds:
+        ok, binp, log = pipeline.build_simple(src, "threads_" + name, flags)
+        if not ok:
+            res["infra"].append((f"threads_check.cpp [{name}] does not build against {REPO}", log[-4000:]))
+            continue
+        for sd in seeds:
+            env = dict(os.environ, TSAN_OPTIONS="halt_on_error=0 report_signal_unsafe=0")
+            import subprocess
+            p = subprocess.run([binp, str(sd), tier], stdout=subprocess.PIPE, stderr=subprocess.PIPE, env=env, timeout=3000)
+            out, err = p.stdout.decode(errors="replace"), p.stderr.decode(errors="replace")
+            for ln in out.splitlines():
+                if ln.startswith("TH "):
+                    res["evaluations"] += 1
+                    res["nontrivial"].append(f"{name} seed={sd} " + " ".join(ln.split()[1:4]))
+                    if not ln.rstrip().endswith("OK"):
+                        res["diffs"].append({"variant": name, "case": f"threads seed={sd}", "line": 0, "op": ln, "model": "results identical to the sequential run (Proofs_Threads.interleave_deterministic)",
+                                             "impl": ln, "history": [f"threads_check {sd} {tier}  # build {name}: {flags}"], "oracle": "fails",
+                                             "explanation": "a thread obtained results that differ from the sequential run"})
+            if "ThreadSanitizer" in err or (p.returncode != 0 and "DONE" not in out):
+                res["diffs"].append({"variant": name, "case": f"threads seed={sd}", "line": 0, "op": f"threads_check {sd} {tier}", "model": "no data race",
+                                     "impl": f"rc={p.returncode}", "stderr": err[-4000:], "history": [f"threads_check {sd} {tier}  # build {name}: {flags}"],
+                                     "oracle": "fails", "explanation": "ThreadSanitizer reported a data race (or the run aborted) during concurrent const use"})
+    res["notes"] = {"builds": [b[0] for b in builds], "seeds": seeds, "thread_counts": [2, 3, 4, 8, 16], "types": ["double", "long double"]}
+    res["samples"] = [{"run": t} for t in res["nontrivial"][:3]]
+    return res
+
+
+# ---------------------------------------------------------------------------
+# C19: archetype scalars
+# ---------------------------------------------------------------------------
+def stage_archetypes(pid, seed, tier, workdir):
+    import props
+    res = {"diffs": [], "infra": [], "evaluations": 0, "samples": [], "nontrivial": [], "notes": {}}
+    # (1) explicit instantiation of every core template with both archetypes
+    ok, pchdir, flags, log = pipeline.build_pch("plain")
+    src = os.path.join(VERIF, "cpp", "instantiate_arch.cpp")
+    if ok:
+        rc, out, _ = pipeline.sh(f"timeout 900 g++ {flags} -I{pchdir} -I{REPO}/include -c {src} -o {workdir}/instantiate_arch.o", timeout=960)
+        res["evaluations"] += 1
+        if rc != 0:
+            res["diffs"].append({"variant": "arch", "case": "explicit instantiation", "line": 0, "op": "compile cpp/instantiate_arch.cpp",
+                                 "model": "compiles", "impl": "compile error", "stderr": out[-4000:], "history": ["g++ -c cpp/instantiate_arch.cpp"],
+                                 "oracle": "fails", "explanation": "a core template does not compile for a scalar type offering only the documented operations: " + out[-1500:]})
+    else:
+        res["infra"].append(("PCH build failed", log[-4000:]))
+    # (2) WrapD vs double, bit for bit
+    cases = props.gen_C19(seed, tier)
+    outs = {}
+    for v in ("fp_double_noquad", "wrapd"):
+        ok, binp, log = pipeline.build_harness(cases, os.path.join(workdir, "arch"), v)
+        if not ok:
+            res["diffs"].append({"variant": v, "case": "build", "line": 0, "op": f"compile the generated program with {v}", "model": "compiles",
+                                 "impl": "compile error", "stderr": log[-4000:], "history": [f"variant {v}"], "oracle": "fails",
+                                 "explanation": "the library does not compile for the archetype scalar: " + log[-1500:]})
+            return res
+        outs[v], _ = pipeline.run_harness(binp)
+    for c in cases:
+        for i, text in enumerate(c.lines, 1):
+            k = f"{c.cid}.{i}"
+            res["evaluations"] += 1
+            if outs["wrapd"].get(k) != outs["fp_double_noquad"].get(k):
+                res["diffs"].append({"variant": "wrapd", "case": c.cid, "line": i, "op": text, "model": (outs["fp_double_noquad"].get(k) or "")[:300],
+                                     "impl": (outs["wrapd"].get(k) or "")[:300], "history": c.lines[:i], "oracle": "fails",
+                                     "explanation": "results with the archetype over double differ from results with double: the library used something beyond the documented operations"})
+    res["notes"] = {"lines_compared_bitwise": sum(len(c.lines) for c in cases)}
+    return res
